@@ -388,6 +388,45 @@ Proof.
     exfalso. apply Hnot. change (a', b') with (fst (a', b', v)). apply in_map. exact Hin.
 Qed.
 
+(* ---------- the caller: which features get ranked ---------- *)
+Lemma set1_keys d k v x : In x (map fst (set1 d k v)) <-> x = k \/ In x (map fst d).
+Proof.
+  induction d as [|[k' v'] r IH]; cbn [set1 map fst In].
+  - split; [intros [H|[]]; left; congruence|intros [H|[]]; left; congruence].
+  - destruct (N.eqb_spec k k') as [->|Hn]; cbn [map fst In].
+    + split; [intros [H|H]; [right; left; exact H|right; right; exact H]|intros [H|[H|H]]; [left; congruence|left; exact H|right; exact H]].
+    + rewrite IH. split; [intros [H|[H|H]]; auto|intros [H|[H|H]]; auto].
+Qed.
+
+Lemma fold_set1_keys rows : forall acc x,
+  In x (map fst (fold_left (fun d '(k, s) => set1 d k s) rows acc)) <-> In x (map fst rows) \/ In x (map fst acc).
+Proof.
+  induction rows as [|[k s] rows IH]; intros acc x; cbn [fold_left map fst In]; [tauto|].
+  rewrite IH, set1_keys. split; [intros [H|[H|H]]; auto|intros [[H|H]|H]; auto].
+Qed.
+
+Lemma norm1_keys rows : map fst (norm1 rows) = map fst rows.
+Proof. unfold norm1. rewrite map_map. apply map_ext. intros [k s]. reflexivity. Qed.
+
+Lemma relevance_rows_keys lbl T f :
+  In f (map fst (relevance_rows lbl T)) <-> f <> lbl /\ exists s, In (Plain f, Plain lbl, s) T.
+Proof.
+  unfold relevance_rows. rewrite in_map_iff. split.
+  - intros [[k s] [Hk Hin]]. cbn in Hk. subst k. apply in_flat_map in Hin. destruct Hin as [[[a b] s'] [HT Hin]].
+    destruct a as [a|]; [|destruct Hin]. destruct b as [b|]; [|destruct Hin].
+    destruct (N.eqb_spec b lbl) as [->|]; [|destruct Hin]. destruct (N.eqb_spec a lbl) as [->|Hn]; cbn in Hin; [destruct Hin|].
+    destruct Hin as [Heq|[]]. injection Heq as -> ->. split; [exact Hn|]. exists s. exact HT.
+  - intros [Hn [s HT]]. exists (f, s). split; [reflexivity|]. apply in_flat_map. exists (Plain f, Plain lbl, s).
+    split; [exact HT|]. rewrite N.eqb_refl. destruct (N.eqb_spec f lbl); [contradiction|]. now left.
+Qed.
+
+Theorem caller_feats lbl T f :
+  In f (feats (build_inst lbl T)) <-> f <> lbl /\ exists s, In (Plain f, Plain lbl, s) T.
+Proof.
+  rewrite feats_keys. unfold build_inst. cbn [rel].
+  rewrite fold_set1_keys, norm1_keys, relevance_rows_keys. cbn [map In]. tauto.
+Qed.
+
 (* ---------- non-vacuity ---------- *)
 Example ex_inst : inst :=
   {| rel := [(0%N, 3 # 4); (1%N, 3 # 4); (2%N, 1 # 4); (3%N, -(1 # 2))];
